@@ -103,8 +103,12 @@ class TlcResult:
                     raise ToolError("cannot parse judge line: %r (%s)" % (line[:200], e))
 
     def violated_invariant(self):
-        m = re.search(r"Invariant (\w+) is violated", self.text)
-        return m.group(1) if m else None
+        m = re.search(r"Invariant (\w+) is violated", self.text) or re.search(r"Action property (\w+) is violated", self.text)
+        if m:
+            return m.group(1)
+        if "Temporal properties were violated" in self.text:
+            return "temporal"
+        return None
 
 
 def tlc(module, cfg, env=None, workers=None, xmx="6g", timeout=3600, workdir=None, extra=None,
